@@ -467,7 +467,8 @@ func (ctx *fromJSONSchemaContext) convertTuple(s *lib.Schema) (core.ZodSchema, e
 // convertObject converts an object type schema.
 func (ctx *fromJSONSchemaContext) convertObject(s *lib.Schema) (core.ZodSchema, error) {
 	// Handle record-like objects (additionalProperties without properties)
-	if s.Properties == nil || len(*s.Properties) == 0 {
+	// (A Record cannot require keys: with `required` next to additionalProperties the object path is taken.)
+	if (s.Properties == nil || len(*s.Properties) == 0) && (s.AdditionalProperties == nil || len(s.Required) == 0) {
 		if s.AdditionalProperties != nil {
 			valueSchema, err := ctx.convert(s.AdditionalProperties)
 			if err != nil {
@@ -496,7 +497,11 @@ func (ctx *fromJSONSchemaContext) convertObject(s *lib.Schema) (core.ZodSchema, 
 	ctx.seen[s] = placeholder
 
 	// Convert each property
-	for key, propSchema := range *s.Properties {
+	var properties lib.SchemaMap
+	if s.Properties != nil {
+		properties = *s.Properties
+	}
+	for key, propSchema := range properties {
 		propZodSchema, err := ctx.convert(propSchema)
 		if err != nil {
 			continue // Skip on error in this context
@@ -510,10 +515,11 @@ func (ctx *fromJSONSchemaContext) convertObject(s *lib.Schema) (core.ZodSchema, 
 		shape[key] = propZodSchema
 	}
 
-	// A required name without a properties entry must still be present (any value).
+	// A required name without a properties entry must still be present; its
+	// value is an additional property, judged by additionalProperties.
 	for _, req := range s.Required {
 		if _, ok := shape[req]; !ok {
-			shape[req] = types.Unknown()
+			shape[req] = ctx.additionalValue(s)
 		}
 	}
 
@@ -540,6 +546,16 @@ func (ctx *fromJSONSchemaContext) convertObject(s *lib.Schema) (core.ZodSchema, 
 	ctx.seen[s] = result
 
 	return result, nil
+}
+
+// additionalValue is the schema of a value whose key is not listed in properties.
+func (ctx *fromJSONSchemaContext) additionalValue(s *lib.Schema) core.ZodSchema {
+	if s.AdditionalProperties != nil {
+		if converted, err := ctx.convert(s.AdditionalProperties); err == nil {
+			return converted
+		}
+	}
+	return types.Unknown()
 }
 
 // makeOptional wraps a schema in Optional if it supports it.
